@@ -76,6 +76,7 @@ func runMapProtocolOn(c *Ctx, prefix, pkgRel, namePfx string, full bool) {
 	R.Rule(mp.rule("no-callback-under-lock"), "no call of a function-typed parameter and no channel operation while mu is held", 8)
 	R.Rule(mp.rule("entry-tables"), "entry helpers: a value is returned only from a word found non-nil and not expunged; 'absent' only when the last loaded word is nil or expunged; success after a CAS only when that CAS succeeded", 5)
 	R.Rule(mp.rule("cas-retry-reloads"), "every iteration of a retry loop on entry.p loads the word again", 3)
+	R.Rule(mp.rule("dirty-copy-complete"), "rebuilding the dirty map: every entry of the read map is carried over under its key or is on the true edge of the expunging helper", 1)
 	R.Rule(mp.rule("effect-completeness"), "Store stores on every path; Load/LoadOrStore/LoadAndDelete return the entry operation's own result for the entry found after the re-check; Delete delegates to LoadAndDelete", 5)
 
 	mp.fMu = c.P.FieldOf(mp.pkg, "Map", "mu")
@@ -158,6 +159,7 @@ func runMapProtocolOn(c *Ctx, prefix, pkgRel, namePfx string, full bool) {
 	}
 	mp.noCallbackUnderLock()
 	mp.entryTables()
+	mp.dirtyCopyComplete()
 	if full {
 		mp.effectCompleteness()
 	}
@@ -1923,4 +1925,91 @@ func (mp *mapProto) entryTables() {
 			}
 		}
 	}
+}
+
+// ---- dirty-copy-complete ---------------------------------------------------------------------
+//
+// When the dirty map is rebuilt from the read map, every entry is either carried over under its key or known to be
+// expunged (the true edge of the expunging helper): an entry that is neither is live in the read map, accepts
+// lock-free stores, and is dropped by the next promotion.
+
+func (mp *mapProto) dirtyCopyComplete() {
+	c := mp.c
+	rule := mp.rule("dirty-copy-complete")
+	// expungers: entry helpers that CAS nil -> expunged
+	expunger := map[string]bool{}
+	for _, fi := range mp.funcs {
+		if mp.isMapRecv(fi) {
+			continue
+		}
+		for _, p := range mp.paths[fi] {
+			for i := range p.Events {
+				e := &p.Events[i]
+				if e.Kind == "call" && entryOpKind(e.Name) == "cas" && len(e.Args) == 3 && mp.isExpunged(e.Args[2]) {
+					expunger[fi.Name] = true
+				}
+			}
+		}
+	}
+	n := 0
+	for _, fi := range mp.funcs {
+		if !mp.isMapRecv(fi) {
+			continue
+		}
+		ps := mp.paths[fi]
+		rebuilds := false
+		for _, p := range ps {
+			for i := range p.Events {
+				e := &p.Events[i]
+				if e.Kind == "store" && mp.isDirtyAddr(e.Addr) && e.Val.Op == "mkmap" {
+					rebuilds = true
+				}
+			}
+		}
+		if !rebuilds {
+			continue
+		}
+		n++
+		ok, why := true, ""
+		loops := findLoops(ps)
+		sawLoop := false
+		for _, li := range loops {
+			it := c14IterOf(li)
+			if it == nil || it.kind != "map" {
+				continue
+			}
+			sawLoop = true
+			K := &Term{Op: "extract", N: 1, Args: []*Term{it.next}}
+			E := &Term{Op: "extract", N: 2, Args: []*Term{it.next}}
+			for _, p := range li.Back {
+				copied, expunged := false, false
+				for i := p.LoopAt[li.Hdr]; i < len(p.Events); i++ {
+					e := &p.Events[i]
+					if e.Kind == "mapupdate" && mp.isDirtyMap(p, e.Addr) && e.Key != nil && e.Key.Key() == K.Key() && e.Val.Key() == E.Key() {
+						copied = true
+					}
+				}
+				for _, cd := range p.Conds {
+					t, pol := stripNot(cd.T, cd.Pol)
+					if pol && t.Op == "call" && expunger[t.Sym] && len(t.Args) >= 1 && t.Args[0].Key() == E.Key() {
+						expunged = true
+					}
+				}
+				if !copied && !expunged {
+					ok, why = false, fmt.Sprintf("an entry of the read map is neither carried over into the new dirty map nor known expunged (%s): a concurrent lock-free store into it is lost at the next promotion", p.CondString())
+				}
+				if copied && expunged {
+					ok, why = false, "an expunged entry is put into the dirty map"
+				}
+			}
+		}
+		if ok && !sawLoop {
+			ok, why = false, "the dirty map is re-created without copying the read map's entries"
+		}
+		o := c.R.Decide(ok, rule, fi.Name, "copy-loop", c.pos(fi), "every read-map entry is copied under its key or known expunged", why)
+		if !ok {
+			o.Breaks = "a stored value disappears after the next promotion"
+		}
+	}
+	_ = n
 }
